@@ -194,14 +194,30 @@ def run(ctx):
         if ok:
             elt, tgt, itx = els[0]
             # the index variable: `i in range(ns)` or `(i, x) in enumerate(slaves)`
-            i = tgt if tgt.isidentifier() else (tgt.strip("()").split(",")[0].strip() if itx == "enumerate(slaves)" else "?")
+            i = tgt if tgt.isidentifier() else (tgt.strip("()").split(",")[0].strip() if itx.startswith("enumerate(") else "?")
             ok = itx in ("range(ns)", "range(len(slaves))", "enumerate(slaves)")
+            busvar = None
+            if not ok and itx.startswith("enumerate(") and itx.endswith(")") and not tgt.isidentifier():
+                # `for i, bus in enumerate(busses)` with `busses = [bus for _, bus in slaves]`: the list of the slaves' busses, in order
+                try:
+                    src_ = ast.parse(itx[len("enumerate("):-1], mode="eval").body
+                except SyntaxError:
+                    src_ = None
+                if isinstance(src_, ast.Name):
+                    src_ = fx.localdefs.get(src_.id)
+                if isinstance(src_, ast.ListComp) and len(src_.generators) == 1 and not src_.generators[0].ifs and \
+                        norm(src_.generators[0].iter) == "slaves" and isinstance(src_.generators[0].target, ast.Tuple) and \
+                        len(src_.generators[0].target.elts) == 2 and norm(src_.elt) == norm(src_.generators[0].target.elts[1]):
+                    parts_ = [x_.strip() for x_ in tgt.strip("()").split(",")]
+                    if len(parts_) == 2:
+                        busvar = parts_[1]
+                        ok = True
             # term: Replicate(sel_r[i], ..) & slaves[i][1].dat_r
             ok = ok and isinstance(elt, ast.BinOp) and isinstance(elt.op, ast.BitAnd)
             if ok:
                 parts = [elt.left, elt.right]
                 rep = [p for p in parts if isinstance(p, ast.Call) and norm(p.func) == "Replicate"]
-                dat = [p for p in parts if norm(p) == f"slaves[{i}][1].dat_r"]
+                dat = [p for p in parts if norm(p) == f"slaves[{i}][1].dat_r" or (busvar is not None and norm(p) == f"{busvar}.dat_r")]
                 ok = len(rep) == 1 and len(dat) == 1 and isinstance(rep[0].args[0], ast.Subscript) and norm(rep[0].args[0].slice) == i
                 if ok:
                     sel_r = norm(rep[0].args[0].value)
